@@ -26,10 +26,10 @@ ASSUMPTIONS = ["std::collections::HashMap insert / remove / get semantics (last 
 
 def run(ctx):
     lib = ctx.lib()
-    check_registry(ctx, lib)
-    check_runtime_flow(ctx, lib)
-    check_call_protocol(ctx, lib)
-    check_custom(ctx, lib)
+    ctx.attempt("check_registry", check_registry, ctx, lib)
+    ctx.attempt("check_runtime_flow", check_runtime_flow, ctx, lib)
+    ctx.attempt("check_call_protocol", check_call_protocol, ctx, lib)
+    ctx.attempt("check_custom", check_custom, ctx, lib)
 
 
 def check_registry(ctx, lib):
@@ -250,6 +250,11 @@ def check_custom(ctx, lib):
             ia = [o.of_operand(x) for x in inv[0][1]["args"]]
             ok = ia[0] == {("param", 1)} and all(t[0] == "agg" and t[1] == "tuple" and t[2] == (fs({("param", 2)}), fs({("param", 3)})) for t in ia[1])
         ctx.check(ok, rule, "bare-closure", "a bare closure used as a function is called with the same (args, ctx) and its result returned", f.span)
+    # "only invoked when the arguments satisfy it": the validator itself (shared rows with C06)
+    from .c06 import check_arity, check_is_valid, check_positions
+    ctx.attempt("check_arity", check_arity, ctx, lib)
+    ctx.attempt("check_positions", check_positions, ctx, lib)
+    ctx.attempt("check_is_valid", check_is_valid, ctx, lib)
     cn = ctx.fn("functions::CustomFunction::new", rule=rule)
     if cn is not None:
         o = Origins(cn, lib)
